@@ -511,7 +511,8 @@ def native_search(ctx, unit, name, rs_text, args=(), timeout=600, deps=None):
     if deps and os.path.isfile(lock):
         shutil.copy(lock, os.path.join(d, "Cargo.lock"))
     open(os.path.join(d, "src", "main.rs"), "w").write(rs_text)
-    env = dict(os.environ, CARGO_NET_OFFLINE="true")
+    # one shared target directory for all native programs: dependencies (num-bigint, the parser crate ...) are built once
+    env = dict(os.environ, CARGO_NET_OFFLINE="true", CARGO_TARGET_DIR=os.path.join(ROOT, "out", "_native_target"))
     cmd = ["cargo", "run", "--offline", "-q", "--"] + [str(a) for a in args]
     try:
         p = subprocess.run(cmd, cwd=d, capture_output=True, text=True, timeout=timeout, env=env)
